@@ -7,6 +7,7 @@ import Cnl2aspModel.Compiler.TemporalRange
 import Cnl2aspModel.Compiler.Cli
 import Cnl2aspModel.Asp.PrintAtom
 import Cnl2aspModel.Compiler.Route
+import Cnl2aspModel.Compiler.Signatures
 
 open Lean Cnl2aspModel
 
@@ -109,6 +110,33 @@ def c11route (j : Json) : Json :=
     | .directive n => Json.arr #[Json.str "d", Json.str n]
     | .rule r => Json.arr #[Json.str "r", Json.str r]).toArray)]
 
+open Signatures in
+def parseSAttrs (j : Json) (k : String) : List SAttr :=
+  match j.getObjVal? k with
+  | .ok (Json.arr a) => a.toList.map fun x => ⟨jstr x "name", jstrs x "origin"⟩
+  | _ => []
+
+open Signatures in
+def sattrsJson (l : List SAttr) : Json :=
+  Json.arr (l.map fun a => Json.mkObj [("name", Json.str a.name), ("origin", Json.arr (a.origin.map Json.str).toArray)]).toArray
+
+open Signatures in
+def c13table (j : Json) : Json :=
+  let ents : List Sig := match j.getObjVal? "entities" with
+    | .ok (Json.arr a) => a.toList.map fun x => ⟨jstr x "name", parseSAttrs x "keys", parseSAttrs x "attrs"⟩
+    | _ => []
+  let pairs : List (String × String) := match j.getObjVal? "eqpairs" with
+    | .ok (Json.arr ps) => ps.toList.filterMap fun p => match p with
+        | Json.arr #[Json.str x, Json.str y] => some (x, y)
+        | _ => none
+    | _ => []
+  let nameEq : String → String → Bool := fun x y => x == y || pairs.contains (x, y)
+  let table := ents.foldl (addSignature nameEq) []
+  Json.mkObj [("table", Json.arr (table.map fun s => Json.mkObj [
+    ("name", Json.str s.name), ("keys", sattrsJson s.keys), ("attrs", sattrsJson s.attrs),
+    ("flat", Json.num (flatArity s)), ("atom", Json.num (atomArity s)), ("fn", Json.num (fnArity s)),
+    ("printedFn", Json.num (printedFnArity nameEq s))]).toArray)]
+
 open LineCol in
 def linecol (j : Json) : Json :=
   let s := (jstr j "s").toList
@@ -129,6 +157,7 @@ def dispatch (op : String) (j : Json) : Json :=
   | "linecol" => Ops.linecol j
   | "c14.print" => Ops.c14print j
   | "c11.route" => Ops.c11route j
+  | "c13.table" => Ops.c13table j
   | _ => Json.mkObj [("err", "bad-op")]
 
 partial def loop (h : IO.FS.Stream) (out : IO.FS.Stream) : IO Unit := do
